@@ -7,6 +7,7 @@ spec : DiffFormat.tla WellFormed / SchemaOK / DiffPlainJSON (DiffModel.tla check
 """
 import itertools
 
+from . import mergedrv
 from . import common, tlc, genjson, mergefam
 from .common import Check
 from .corpus import Corpus
@@ -65,6 +66,10 @@ def run():
     for name, b, l, rr, info in triples:
         plan = [plan_item("tool", ("mergetool", None, None, True)), plan_item("cli", ("inline", None, None, True))]
         plan += [plan_item("cli", s) for s in r.sample(cli, 2)]
+        if info.get("source") in ("output-edits", "output-scenario"):
+            # conflicts inside the outputs of one cell: every output strategy builds its own decisions (custom diffs,
+            # collected local / remote diffs re-wrapped at the level of the outputs list)
+            plan += [plan_item("cli", ("inline", None, o, True)) for o in mergedrv.OUTPUT if o not in (None, "inline")]
         tasks.append((name, b, l, rr, plan, {}))
     mev = mergefam.generate(tasks)
     info = {t[0]: t[4] for t in triples}
